@@ -5,6 +5,7 @@ import (
 	"fmt"
 	"os"
 	"sync"
+	"strings"
 	"syscall"
 	"time"
 
@@ -48,6 +49,9 @@ func runC11(res *Result, d *Driver, tier string, seed uint64) {
 		{"forker", "fork;sleep 20000;endfork;fork;spin 20000;endfork;sleep 20000;exit 0", true, 0},
 		{"quick", "exit 3", false, 0},
 		{"short", "sleep 8;exit 0", false, 0},
+		// a program that spends its life in trapped system calls (stopped for the tracer most of the time): a cancellation
+		// is then likely to meet it in such a stop
+		{"trapper", strings.Repeat("sys 21 s:/nonexistent-verif 0;", 3500) + "exit 0", false, 0},
 		// programs that are inside their limits when they are cancelled, at every distance from the memory limit (256 MiB;
 		// well above what the launching process itself holds: the kernel carries the peak resident set over an exec)
 		{"holds-16MiB", "mem 16;print ready;sleep 20000;exit 0", true, 16},
@@ -67,6 +71,9 @@ func runC11(res *Result, d *Driver, tier string, seed uint64) {
 	for i := 0; i < n && hung < 3; i++ {
 		for _, rn := range []string{"ptrace", "unshare", "container"} {
 			p := progs[rng.Intn(len(progs))]
+			if p.name == "trapper" && rn == "container" {
+				p = progs[1] // the long script does not fit a container request (32 KiB cap, a recorded limit of C10/C14)
+			}
 			var delay time.Duration
 			switch rng.Intn(5) {
 			case 0:
@@ -95,7 +102,10 @@ func runC11(res *Result, d *Driver, tier string, seed uint64) {
 				spec.Limit = runner.Limit{TimeLimit: 30 * time.Second, MemoryLimit: runner.Size(256 << 20)}
 			}
 			// many descriptors lengthen the window between clone and setsid in the child (pins the early-cancel race)
-			manyFiles := rn == "ptrace" && rng.Chance(40)
+			manyFiles := rn == "ptrace" && rng.Chance(40) && p.name != "trapper"
+			if p.name == "trapper" && delay >= 0 {
+				delay = time.Duration(2+rng.Intn(60)) * time.Millisecond
+			}
 			t0 := time.Now()
 			var r runner.Result
 			syncAfter := rng.Bool()
@@ -105,7 +115,11 @@ func runC11(res *Result, d *Driver, tier string, seed uint64) {
 				var r runner.Result
 				switch rn {
 				case "ptrace":
-					if manyFiles {
+					if p.name == "trapper" {
+						spec.Filter = tracingFilter()
+						spec.Handler = allowHandler{}
+						r, _ = runPtraceProbe(spec)
+					} else if manyFiles {
 						r = runPtraceManyFiles(spec, 600)
 					} else {
 						r, _ = runPtraceProbe(spec)
